@@ -690,7 +690,10 @@ class E3Job:
                 muts = [x for x in hist[:-1] if x[0] != "read"]
                 cause = "set_precoders(F=list)" if self.model(hist[:-1])["Flist"] else \
                     evkind(muts[-1] if muts else None)
-                sig = (bad[1], "exception:" + type(e).__name__, "after", cause)
+                where = exc_where(e).split(":")[-1]      # the property that actually raised
+                view = where if where in ("F", "P", "Ns", "W", "W_H", "full_F", "full_W_H", "full_W") \
+                    else bad[1]
+                sig = (view, "exception:" + type(e).__name__, "after", cause)
             else:
                 sig = (evkind(bad) if bad is not None else "solve", "exception", type(e).__name__,
                        exc_where(e))
@@ -720,8 +723,8 @@ class E3Job:
                 rec["obs"][v] = bfs.digest(np.asarray(obs[v][1]), 8)
         bad = {}          # view -> (kind, observed, expected)
 
-        def flag(v, kind, o, x, cause=None):
-            bad[v] = (kind, o, x, cause)
+        def flag(v, kind, o, x, cause=None, silent=False):
+            bad[v] = (kind, o, x, cause, silent)
 
         def stale_or(v, kind):
             if prev is not None and prev["obs"].get(v) == rec["obs"].get(v):
@@ -755,7 +758,11 @@ class E3Job:
             if lists["W_H"] is None or [x.shape for x in lists["W_H"]] != [x.shape for x in md["WH"]]:
                 flag("W_H", "wrong_shape", shapes_of(obs["W_H"][1]), [x.shape for x in md["WH"]])
             elif not same_lists(lists["W_H"], md["WH"]):
-                flag("W_H", stale_or("W_H", "wrong_value"), lists["W_H"][0], md["WH"][0])
+                conseq = ev is not None and ev[0] == "solve" and "F" in bad
+                if conseq:
+                    chk.count("consequential_W_H_of_a_different_solution_not_reported")
+                flag("W_H", "wrong_value" if conseq else stale_or("W_H", "wrong_value"),
+                     lists["W_H"][0], md["WH"][0], silent=conseq)
         # W against the OBSERVED W_H (model when that one is unusable)
         if "W" not in bad:
             ref = lists["W_H"] if lists["W_H"] is not None else md["WH"]
@@ -817,8 +824,10 @@ class E3Job:
             elif not same_lists(lists["full_W"], want):
                 flag("full_W", stale_or("full_W", "inconsistent_with_full_W_H"), lists["full_W"][0], want[0])
         # ---- report what is new relative to the prefix
-        for v, (kind, o, x, cause) in bad.items():
+        for v, (kind, o, x, cause, silent) in bad.items():
             rec["failing"][v] = (kind, rec["obs"].get(v))
+            if silent:
+                continue
             if prev is not None and v in prev["failing"] and (
                     prev["failing"][v][0] == kind or prev["failing"][v][1] == rec["obs"].get(v)):
                 chk.count("persisting_failures_not_re_reported")
